@@ -2,13 +2,17 @@ package main
 
 import (
 	"bytes"
+	"encoding/hex"
 	"encoding/json"
 	"fmt"
+	"math/big"
 	"os"
 	"os/exec"
 	"strings"
 
+	"github.com/tjfoc/gmsm/sm2"
 	"github.com/tjfoc/gmsm/sm4"
+	gx509 "github.com/tjfoc/gmsm/x509"
 
 	"verif/mon"
 	"verif/ref"
@@ -79,6 +83,41 @@ var firstOps = map[string][]firstOp{
 			return ""
 		}},
 	},
+}
+
+func init() {
+	// decoders as the first thing a process does (inputs come from the reference only)
+	d := big.NewInt(424242)
+	q := ref.MulG(d)
+	comp := append([]byte{2 + byte(q.Y.Bit(0))}, ref.Pad32(q.X)...)
+	comp2 := append([]byte{byte(q.Y.Bit(0))}, ref.Pad32(q.X)...)
+	raw := append([]byte{4}, append(ref.Pad32(q.X), ref.Pad32(q.Y)...)...)
+	firstOps["C18"] = []firstOp{
+		{"sm2.Decompress", func() string {
+			for _, in := range [][]byte{comp2, comp} {
+				p := sm2.Decompress(in)
+				// the prefix convention is C14's business; here: whatever comes back for this x must be one of the two
+				// curve points with that abscissa
+				if p != nil && p.X != nil && p.X.Cmp(q.X) == 0 && p.Y.Cmp(q.Y) != 0 && p.Y.Cmp(new(big.Int).Sub(ref.P, q.Y)) != 0 {
+					return "Decompress as the first SM2 operation of the process returns a point that is not on the curve"
+				}
+			}
+			return ""
+		}},
+		{"sm2.Decrypt(garbage)", func() string {
+			sm2.Decrypt(&sm2.PrivateKey{D: d, PublicKey: sm2.PublicKey{Curve: sm2.P256Sm2(), X: q.X, Y: q.Y}}, append(append([]byte{}, raw...), make([]byte, 40)...), sm2.C1C3C2)
+			return ""
+		}},
+		{"sm2.CipherUnmarshal", func() string { sm2.CipherUnmarshal([]byte{0x30, 0x03, 0x02, 0x01, 0x01}); return "" }},
+		{"sm2.SignDataToSignDigit", func() string {
+			sm2.SignDataToSignDigit([]byte{0x30, 0x06, 0x02, 0x01, 0x01, 0x02, 0x01, 0x01})
+			return ""
+		}},
+		{"x509.ReadPublicKeyFromHex", func() string { gx509.ReadPublicKeyFromHex(hex.EncodeToString(raw)); return "" }},
+		{"x509.ReadPrivateKeyFromHex", func() string { gx509.ReadPrivateKeyFromHex(d.Text(16)); return "" }},
+		{"x509.ParsePKCS7", func() string { gx509.ParsePKCS7([]byte{0x30, 0x80, 0x06, 0x01, 0x01, 0x00, 0x00}); return "" }},
+		{"x509.ParseCertificate", func() string { gx509.ParseCertificate([]byte{0x30, 0x03, 0x02, 0x01, 0x01}); return "" }},
+	}
 }
 
 func firstHelper(mode string, f func(key, in []byte, enc bool) ([]byte, error)) string {
